@@ -48,13 +48,10 @@ ASSUMPTIONS = [
     "C20: leak detection = counted blocks still owned by the sanitizer allocator after release + LeakSanitizer in the child "
     "process; LeakSanitizer is conservative (a stale pointer on the stack hides a leak), the block table is exact for "
     "counted blocks only",
-    "C20: the enumeration runs against a build WITHOUT use-after-scope instrumentation (vlib.build('hook', "
-    "extra_defs=-fno-sanitize-address-use-after-scope)): the C09 finding in jose_jwe_enc_cek would otherwise end every "
-    "JWE encryption scenario",
 ]
 
 ENV = {"ASAN_OPTIONS": "detect_leaks=1:abort_on_error=0:exitcode=97:allocator_may_return_null=1"}
-NOSCOPE = ("-fno-sanitize-address-use-after-scope",)
+NOSCOPE = ()
 
 CHAINS_QUICK = [
     ("b64enc(malloc)", None, None),
